@@ -262,6 +262,11 @@ def eager_add_funsor_delta(op, lhs, rhs):
 def eager_independent_delta(delta, reals_var, bint_var, diag_var):
     for i, (name, (point, log_density)) in enumerate(delta.terms):
         if name == diag_var:
+            others = delta.terms[:i] + delta.terms[i + 1 :]
+            if any(bint_var in p.inputs or bint_var in ld.inputs for _, (p, ld) in others):
+                # another point mass also varies along the plate: the sum over
+                # the plate is not a single Delta
+                return None
             bv = Variable(bint_var, delta.inputs[bint_var])
             point = Lambda(bv, point)
             if bint_var in log_density.inputs:
